@@ -227,6 +227,10 @@ def uniform_dequantize(
       tensor_data, quantization_params
   )
   _is_valid_quantization_params(tensor_data, quantization_params)
+  if np.issubdtype(tensor_data.dtype, np.integer):
+    # Subtract in a wide type: the quantized data and the zero point may both
+    # be narrow integers (e.g., int8), whose difference does not fit in int8.
+    tensor_data = tensor_data.astype(np.int64)
   return np.multiply(
       tensor_data - quantization_params.zero_point, quantization_params.scale
   )
